@@ -11,7 +11,15 @@
 // A transparent observing proxy in front of the real state machine records every Process* call and
 // the actions it returned (observation only; nothing is altered). Runs execute inside a
 // testing/synctest bubble: time is virtual, synctest.Wait() is the quiescence barrier, so a run is a
-// deterministic function of (script, timer table, crash point) and no oracle depends on a wall clock.
+// deterministic function of (script, timer table, stop point) and no oracle depends on a wall clock.
+//
+// A process lifetime ends (crashSpec, run_test.go) by a hard kill before/after an effect (the
+// directory as it is = crash image), or in an orderly way - context cancelled while idle or in the
+// middle of a call, context cancelled while the commit callback holds the hand-over, commit listener
+// reporting a persist error - where Run returns, the driver's deferred Close() flushes what is
+// pending and only then the directory is reused. The commit listener is the harness's block store:
+// OnCommit returning true = block persisted = commit of that height completed; the next lifetime
+// starts at (persisted blocks)+1.
 package c13
 
 import (
